@@ -86,8 +86,12 @@ def _ctor_tasks(tier):
     return out
 
 
+def _table_task():
+    return [task(M, "ob_table_coverage", "simp.table/every-consulted-rewriter-under-contract", ["C01", "C03", "C04"])]
+
+
 def tasks(tier, seed=0):
-    return _simp_tasks(tier) + _cbv_tasks(tier) + _ctor_tasks(tier) + _compose_tasks(tier, seed)
+    return _table_task() + _simp_tasks(tier) + _cbv_tasks(tier) + _ctor_tasks(tier) + _compose_tasks(tier, seed)
 
 
 def _simp_tasks(tier):
